@@ -13,13 +13,17 @@
 (3) Seeded larger systems (n <= 150) against a dense least-squares oracle over an orthonormal Krylov basis built
     in the harness (projection predicate, stated in the assumptions)."""
 import json
+import os
 import time
 import warnings
 
-import numpy as np
+for _v in ("OMP_NUM_THREADS", "OPENBLAS_NUM_THREADS", "MKL_NUM_THREADS"):   # 16 forked workers: one BLAS thread each
+    os.environ.setdefault(_v, "1")
 
-from .. import common, lsqfam
-from ..common import Violation
+import numpy as np  # noqa: E402
+
+from .. import common, lsqfam  # noqa: E402
+from ..common import Violation  # noqa: E402
 
 PROP = "C13"
 TOLS = (1e-7, 1e-10)
@@ -96,6 +100,8 @@ def judge(x, A, b, x0, exp, scale):
         it = "optimal"
     elif xg is not None and close(xg):
         it = "galerkin"
+    elif xg is None and exp.get("truncated"):
+        it = "galerkin_undefined"      # TLC: K^H A K is singular, the Galerkin iterate does not exist
     else:
         it = "other"
     if abs(res2 - exp["rho2"]) > tol_abs:
@@ -110,7 +116,8 @@ def judge(x, A, b, x0, exp, scale):
 
 def expected_of(rec):
     return {"rho2": lsqfam.q_to_float(rec["rho2"]), "rho2_0": lsqfam.q_to_float(rec["rho2_0"]),
-            "xs": _np(rec["x"])[:, 0], "xg": _np(rec["gx"])[:, 0] if rec["gdef"] else None}
+            "xs": _np(rec["x"])[:, 0], "xg": _np(rec["gx"])[:, 0] if rec["gdef"] else None,
+            "truncated": rec["m"] < rec["kdim"]}
 
 
 def base_attrs(job, m, api, tol):
@@ -150,7 +157,7 @@ def single_run(job, m, api, tol, x0_shape="as_b"):
     found, it, res2 = judge(x, A, b, x0, exp, scale)
     for clause, detail in found:
         V(clause, detail, iterate=it)
-    if cols > m + 1:
+    if cols > m + 1 and x.shape == b.shape:
         V("products", f"{cols} products with A for one column and max_iters={m} (allowed: m, + 1 for the initial residual)",
           iterate=it, products=cols)
     return viol, res2
@@ -203,9 +210,13 @@ def observe_multi(mj):
     for api in ("gmres", "inv"):
         for m in range(1, n + 3):
             n_eval += 1
-            case = f"{mj['mat']} [{k} columns] m={m} {api}"
+            case = f"{mj['mat']} [{k} columns, {mj['batch']}] m={m} {api}"
+            top = max(c["kdim"] for c in cols)
+            # some column's Krylov space is exhausted while the iteration continues for the others
+            early = any(c["kdim"] < min(m, top) for c in cols)
             common_at = {"source": "catalog", "n": n, "dtype": "c128" if cplx else "f64", "m": m, "api": api,
-                         "tol": TOLS[0], "columns": k, "x0": "mixed"}
+                         "tol": TOLS[0], "columns": k, "x0": "mixed", "batch": mj["batch"], "early_breakdown": early,
+                         "kdims": sorted({c["kdim"] for c in cols})}
             try:
                 X, used = call(api, A, B, X0, m, TOLS[0])
             except Exception as e:  # noqa: BLE001
@@ -247,7 +258,7 @@ def make_system(spec):
     elif fam == "complex":
         A = (2 + 1j) * np.eye(n) + 0.9 * (rng.randn(n, n) + 1j * rng.randn(n, n)) / np.sqrt(2 * n)
     elif fam == "nonnormal":
-        A = np.triu(rng.randn(n, n), 1) * (2.0 / np.sqrt(n)) + np.diag(np.linspace(1, 3, n))
+        A = np.triu(rng.randn(n, n), 1) * (1.0 / np.sqrt(n)) + np.diag(np.linspace(1, 3, n))
     elif fam == "normal":
         Qm, _ = np.linalg.qr(rng.randn(n, n) + 1j * rng.randn(n, n))
         lam = 2 * np.exp(1j * np.linspace(-1.2, 1.2, n)) + 0.5
@@ -264,17 +275,17 @@ def make_system(spec):
     return A, B.astype(A.dtype), X0.astype(A.dtype)
 
 
-def krylov_oracle(A, r0, m):
-    """Dense least squares over an orthonormal Krylov basis (Arnoldi with re-orthogonalisation, harness side).
-    Returns (minimal residual norm, Galerkin correction or None, dimension reached)."""
+def arnoldi_basis(A, r0, mmax):
+    """Orthonormal Krylov basis by Arnoldi with re-orthogonalisation (harness side).  Returns (Q, H, dim)."""
     n = len(r0)
+    mm = min(mmax, n)
     beta = np.linalg.norm(r0)
-    Q = np.zeros((n, min(m, n) + 1), dtype=A.dtype)
-    H = np.zeros((min(m, n) + 1, min(m, n)), dtype=A.dtype)
+    Q = np.zeros((n, mm + 1), dtype=A.dtype)
+    H = np.zeros((mm + 1, mm), dtype=A.dtype)
     Q[:, 0] = r0 / beta
-    j_end = 0
+    dim = 0
     anorm = np.linalg.norm(A, 2)
-    for j in range(min(m, n)):
+    for j in range(mm):
         w = A @ Q[:, j]
         for _ in range(2):
             h = Q[:, :j + 1].conj().T @ w
@@ -282,20 +293,28 @@ def krylov_oracle(A, r0, m):
             H[:j + 1, j] += h
         hn = np.linalg.norm(w)
         H[j + 1, j] = hn
-        j_end = j + 1
+        dim = j + 1
         if hn <= 1e-10 * anorm or j + 1 >= n:
             break
         Q[:, j + 1] = w / hn
-    Hb = H[:j_end + 1, :j_end]
-    e1 = np.zeros(j_end + 1, dtype=A.dtype)
+    return Q, H, dim
+
+
+def krylov_oracle(basis, beta, m):
+    """Dense least squares over the leading min(m, dim) basis vectors.
+    Returns (minimal residual norm, Galerkin correction or None, dimension used, well conditioned?)."""
+    Q, H, dim = basis
+    j = min(m, dim)
+    Hb = H[:j + 1, :j]
+    e1 = np.zeros(j + 1, dtype=H.dtype)
     e1[0] = beta
     y, *_ = np.linalg.lstsq(Hb, e1, rcond=None)
     opt = np.linalg.norm(e1 - Hb @ y)
     gal = None
-    Hs = Hb[:j_end, :]
+    Hs = Hb[:j, :]
     if np.linalg.cond(Hs) < 1e10:
-        gal = Q[:, :j_end] @ np.linalg.solve(Hs, e1[:j_end])
-    return opt, gal, j_end
+        gal = Q[:, :j] @ np.linalg.solve(Hs, e1[:j])
+    return opt, gal, j, bool(np.linalg.cond(Hb) <= 1e4)
 
 
 def random_specs(tier, seed):
@@ -332,9 +351,10 @@ def observe_random(arg):
     spec, tier = arg
     A, B, X0 = make_system(spec)
     n, k = B.shape
-    viol, n_eval = [], 0
+    viol, n_eval, n_skip = [], 0, 0
     tol = 1e-8
     R0 = B - A @ X0
+    bases = [arnoldi_basis(A, R0[:, j], n) for j in range(k)]
     for m in ms_for(n, tier):
         api = "gmres" if m % 2 else "inv"
         n_eval += 1
@@ -365,21 +385,23 @@ def observe_random(arg):
                                       replay=rp))
                 continue
             r0n = np.linalg.norm(R0[:, j])
-            opt, gal, dim = krylov_oracle(A, R0[:, j], m)
+            opt, gal, dim, well = krylov_oracle(bases[j], r0n, m)
             res = np.linalg.norm(B[:, j] - A @ x)
             it = "other"
             if res <= opt * (1 + 1e-5) + 1e-6 * r0n:
                 it = "optimal"
             elif gal is not None and np.linalg.norm(x - X0[:, j] - gal) <= 1e-5 * (1 + np.linalg.norm(gal)):
                 it = "galerkin"
-            if it != "optimal":
+            if not well and it == "other":
+                n_skip += 1          # projected problem too ill conditioned for the predicate (normal equations)
+            elif it != "optimal":
                 viol.append(Violation(PROP, "residual", case, dict(at0, column=j, iterate=it),
                                       f"||b - A x|| = {res:.6g} > least-squares optimum over the Krylov space {opt:.6g} "
                                       f"(||r0|| = {r0n:.6g}, Krylov dimension used {dim})", replay=rp))
             if res > r0n * (1 + 1e-6) + 1e-9:
                 viol.append(Violation(PROP, "initial_residual", case, dict(at0, column=j, iterate=it),
                                       f"||b - A x|| = {res:.6g} exceeds ||b - A x0|| = {r0n:.6g}", replay=rp))
-    return viol, n_eval
+    return viol, n_eval, n_skip
 
 
 # ------------------------------------------------------------------ run / replay
@@ -392,7 +414,9 @@ ASSUMPTIONS = [
     "mirror of the formulas (harness/lsqfam.py) and counted (dropped_overflow); TLC's printed values must equal the mirror's",
     "larger random systems (n <= 150): the optimum is a dense least-squares solve over an orthonormal Krylov basis built "
     "in the harness with re-orthogonalised Arnoldi (harness-side projection predicate, not TLC): "
-    "||b - A x|| <= opt*(1+1e-5) + 1e-6*||r0||",
+    "||b - A x|| <= opt*(1+1e-5) + 1e-6*||r0||, applied where the projected Hessenberg matrix has condition <= 1e4 (the code "
+    "solves normal equations, which squares it); other columns are counted as skipped unless they are a recognisable "
+    "Galerkin iterate",
     "the number of products with A is counted in columns by a wrapping LinearOperator",
     "tolerances tol in {1e-7 (default), 1e-10} on the catalog and 1e-8 on the random systems; looser tolerances make the "
     "solver stop early on purpose and are not compared with the m-step optimum",
@@ -412,33 +436,52 @@ def build_jobs(tier):
 
 
 def multi_jobs(jobs):
+    """Per matrix: a `uniform` batch (all columns share the largest Krylov dimension: no column finishes before the
+    others) and a `mixed` batch (all columns, so some Krylov spaces are exhausted while others continue)."""
     by = {}
     for j in jobs:
         if j["kdim"] >= 1:
             by.setdefault(j["mat"], []).append(j)
-    return [{"mat": k, "cols": v} for k, v in by.items() if len(v) >= 2]
+    out = []
+    for k, v in by.items():
+        top = max(c["kdim"] for c in v)
+        uni = [c for c in v if c["kdim"] == top]
+        if len(uni) >= 2:
+            out.append({"mat": k, "batch": "uniform", "cols": uni})
+        if len(v) > len(uni):
+            out.append({"mat": k, "batch": "mixed", "cols": v})
+    return out
 
 
 def run(tier):
     t0 = time.time()
+    phase = {}
     jobs, cases, dropped, stats = build_jobs(tier)
+    phase["catalog+tlc"] = round(time.time() - t0, 1)
     neg = lsqfam.gmres_negative_control(PROP, cases)
     if neg != 2:
         common.machinery_failure(PROP, f"negative controls: MC_Gmres rejected {neg} of 2 corrupted catalogs")
     viol, n_eval = [], 0
-    for v, k in common.pmap(observe_case, jobs, chunksize=4):
+    t1 = time.time()
+    for v, k in common.pmap(observe_case, jobs, chunksize=2):
         viol += v
         n_eval += k
+    phase["catalog_replay"] = round(time.time() - t1, 1)
+    t1 = time.time()
     mjobs = multi_jobs(jobs)
     n_multi = 0
     for v, k in _pmap_small(observe_multi, mjobs):
         viol += v
         n_multi += k
+    phase["multi_column"] = round(time.time() - t1, 1)
+    t1 = time.time()
     specs = random_specs(tier, common.seed())
-    n_rand = 0
-    for v, k in _pmap_small(observe_random, [(s, tier) for s in specs]):
+    n_rand = n_skip = 0
+    for v, k, sk in _pmap_small(observe_random, [(s, tier) for s in specs]):
         viol += v
         n_rand += k
+        n_skip += sk
+    phase["random_systems"] = round(time.time() - t1, 1)
     regimes = {}
     for j in jobs:
         for m in range(1, j["n"] + 3):
@@ -448,14 +491,14 @@ def run(tier):
         "states": stats["states"], "transitions": stats["transitions"],
         "traces_validated_against_impl": len(jobs),
         "evaluations": n_eval + n_multi + n_rand, "catalog_calls": n_eval, "multi_column_calls": n_multi,
-        "random_system_calls": n_rand, "random_systems": len(specs),
+        "random_system_calls": n_rand, "random_systems": len(specs), "random_columns_skipped_illconditioned": n_skip,
         "distinct_nontrivial": sum(1 for j in jobs if j["kdim"] >= 2),
         "rule": "one TLC state = (system, m); replayed through gmres() and inv(A, GMRES()) @ b at two tolerances; non-trivial = "
                 "Krylov dimension >= 2 (truncated iterates exist)",
         "samples": [j["id"] for j in jobs[:: max(1, len(jobs) // 6)][:6]],
         "exhaustive": False, "states_by_regime": regimes, "dropped_overflow": dropped,
         "catalog_systems": len(jobs), "catalog_matrices": len({j["mat"] for j in jobs}),
-        "tlc_invariants": stats["invariants"], "tlc_wall_s": stats["wall_s"], "negative_controls_rejected": neg,
+        "phase_wall_s": phase, "tlc_invariants": stats["invariants"], "tlc_wall_s": stats["wall_s"], "negative_controls_rejected": neg,
         "checker_cmd": "tlc MC_Gmres.tla (spec/MC_Gmres.tla, LeastSquares.tla, Mat.tla, generated GmresCatalog.tla)",
     }
     return common.finish(PROP, tier, t0, cov, viol, ASSUMPTIONS)
@@ -479,7 +522,7 @@ def replay(path):
         job["per_m"] = {str(r["m"]): r["rec"]}
         res, _ = single_run(job, r["m"], r["api"], r["tol"], r.get("x0_shape", "column"))
     elif "random" in r:
-        res, _ = observe_random((r["random"], r.get("tier", "quick")))
+        res, _, _ = observe_random((r["random"], r.get("tier", "quick")))
         res = [x for x in res if x.attrs.get("m") == r["m"]]
     else:
         print("replay of multi-column / monotone cases: re-run ./check C13")
